@@ -1,7 +1,10 @@
 use rssl_ast::*;
 use rssl_text::tokens::*;
 use rssl_text::*;
+#[cfg(not(trark_rssl_verif))]
 use std::collections::HashSet;
+#[cfg(trark_rssl_verif)]
+use rssl_text::verif_collections::HashSet;
 
 /// Failure cases
 mod errors;
